@@ -448,17 +448,17 @@ func (i *interpreter) fireTimers() {
 		if t.stopped || (t.fired && t.period == 0) {
 			continue
 		}
-		for !t.stopped && i.timeLE(t.when, i.now) {
+		if !t.stopped && i.timeLE(t.when, i.now) {
 			t.fired = true
 			if t.fn != nil {
 				i.spawn(t.fn, nil, token.NoPos, "time.AfterFunc")
 			} else if len(t.ch.buf) < t.ch.cap || firstLive(&t.ch.recvq) != nil {
 				t.ch.trySend(i.timeValue(i.now))
 			}
-			if t.period == 0 {
-				break
+			if t.period != 0 {
+				// a ticker drops the ticks a slow receiver missed: next tick one period from now
+				t.when = i.timeAddNs(i.now, t.period)
 			}
-			t.when = i.timeAddNs(t.when, t.period)
 		}
 	}
 }
